@@ -157,48 +157,61 @@ func runC12(c *Ctx) {
 	// ---- R3 write-through discipline
 	{
 		ff := factsOf(set)
+		isCall := func(in ssa.Instruction, names ...string) bool {
+			cl, ok := in.(*ssa.Call)
+			if !ok {
+				return false
+			}
+			n := CalleeName(cl.Common())
+			for _, want := range names {
+				if n == want || (strings.HasPrefix(want, ".") && strings.HasSuffix(n, want)) {
+					return true
+				}
+			}
+			return false
+		}
+		boolFact := func(f Fact, truth bool, m Matcher) bool { return !f.IsCmp && f.Truth == truth && m.Match(f.B) }
+		existAny := IsCall("(*db/diffdb.cacheDB).existAny")
+		ensure := IsCall("(*db/diffdb.Database).ensureCache")
+		storeGet := Matcher{"store.Get#1", func(t *Term) bool {
+			return t.Op == "extract" && t.Sym == "#1" && t.Args[0].Op == "call" && strings.HasSuffix(t.Args[0].Sym, "DatabaseReader.Get")
+		}}
 		for _, s := range CallsIn(set, "(*db/diffdb.cacheDB).set") {
-			ok1 := ff.EveryPathHas(s.Call.Block(), func(f Fact) bool {
-				return !f.IsCmp && f.Truth && (IsCall("(*db/diffdb.cacheDB).existAny").Match(f.B) || IsCall("(*db/diffdb.Database).ensureCache").Match(f.B))
-			})
+			// every way to cache.set knows the key is in the overlay, or has just loaded its
+			// initial value from the store (ensureCache answered true, or cache.cache ran)
+			loaded := func(in ssa.Instruction) bool { return isCall(in, "(*db/diffdb.cacheDB).cache") }
+			ok1 := false
+			for _, in := range s.Call.Block().Instrs {
+				if in == ssa.Instruction(s.Call.(*ssa.Call)) {
+					break
+				}
+				if loaded(in) {
+					ok1 = true // loaded from the store just before, in the same block
+				}
+			}
+			ok1 = ok1 || ff.EveryPathHasOr(s.Call.Block(), func(f Fact) bool {
+				return boolFact(f, true, existAny) || boolFact(f, true, ensure)
+			}, loaded)
 			c.Require("C12.R3 write-through", FuncKey(set)+" ⇒ cache.set", p.InstrPos(s.Call), "cache.set only when the key is in the cache or was just loaded from the store (on every path to the call)", ok1, "")
 		}
 		for _, s := range CallsIn(set, "(*db/diffdb.cacheDB).add") {
-			ok1, _ := ff.BoolHoldsAt(s.Call.Block(), IsCall("(*db/diffdb.cacheDB).existAny"), false)
-			ok2, _ := ff.BoolHoldsAt(s.Call.Block(), IsCall("(*db/diffdb.Database).ensureCache"), false)
-			c.Require("C12.R3 write-through", FuncKey(set)+" ⇒ cache.add", p.InstrPos(s.Call), "cache.add (no initial value) only when neither cache nor store has the key", ok1 && ok2, "")
+			okA := ff.EveryPathHas(s.Call.Block(), func(f Fact) bool { return boolFact(f, false, existAny) })
+			okB := ff.EveryPathHas(s.Call.Block(), func(f Fact) bool { return boolFact(f, false, ensure) || boolFact(f, false, storeGet) })
+			c.Require("C12.R3 write-through", FuncKey(set)+" ⇒ cache.add", p.InstrPos(s.Call), "cache.add (no initial value) only when neither cache nor store has the key", okA && okB, fmt.Sprintf("not in overlay=%v not in store=%v", okA, okB))
 		}
 		c.MinInstances("C12.R3 Set sites", len(CallsIn(set, "(*db/diffdb.cacheDB).set"))+len(CallsIn(set, "(*db/diffdb.cacheDB).add")), 2)
-		// Del: every path to cache.del either knows existAny or passed ensureCache
+		// Del: every path to cache.del either knows existAny or went to the store first
 		df := factsOf(del)
 		for _, s := range CallsIn(del, "(*db/diffdb.cacheDB).del") {
-			ok := false
-			for _, pred := range append([]*ssa.BasicBlock{}, s.Call.Block().Preds...) {
-				_ = pred
-			}
-			// the call block joins: (existAny true) | (existAny false → ensureCache called)
-			good := true
-			if len(s.Call.Block().Preds) == 0 {
-				good = false
-			}
-			for _, pred := range s.Call.Block().Preds {
-				has := false
-				for _, f := range df.FactsOnEdge(pred, s.Call.Block()) {
-					if !f.IsCmp && f.Truth && IsCall("(*db/diffdb.cacheDB).existAny").Match(f.B) {
-						has = true
+			ok := df.EveryPathHasOr(s.Call.Block(), func(f Fact) bool { return boolFact(f, true, existAny) },
+				func(in ssa.Instruction) bool {
+					if isCall(in, "(*db/diffdb.Database).ensureCache") {
+						return true
 					}
-				}
-				for _, in := range pred.Instrs {
-					if cl, isC := in.(*ssa.Call); isC && CalleeName(cl.Common()) == "(*db/diffdb.Database).ensureCache" {
-						has = true
-					}
-				}
-				if !has {
-					good = false
-				}
-			}
-			ok = good
-			c.Require("C12.R3 write-through", FuncKey(del)+" ⇒ cache.del", p.InstrPos(s.Call), "before marking deleted, the initial value is in the cache (existAny) or ensureCache ran", ok, "")
+					cl, isC := in.(*ssa.Call)
+					return isC && cl.Common().IsInvoke() && cl.Common().Method.Name() == "Get" && strings.HasSuffix(CalleeName(cl.Common()), "DatabaseReader.Get")
+				})
+			c.Require("C12.R3 write-through", FuncKey(del)+" ⇒ cache.del", p.InstrPos(s.Call), "before marking deleted, the initial value is in the cache (existAny) or the store was consulted (ensureCache / store.Get)", ok, "")
 		}
 	}
 
@@ -446,7 +459,19 @@ func checkSentinelProducers(c *Ctx, rule string, commit *ssa.Function) {
 					_, isMake := v.(*ssa.MakeSlice)
 					cst, isConst := v.(*ssa.Const)
 					isNil := isConst && cst.Value == nil
-					c.Require(rule, FuncKey(fn)+": cacheValue.init producer", p.InstrPos(st), "init is nil or a make()-allocated (always non-nil) copy — never a value that is nil for empty input", isMake || isNil, "value: "+T(st.Val).String())
+					// bytes.Clone(x) is nil exactly when x is nil and a fresh non-nil slice otherwise:
+					// it keeps the sentinel by itself (unlike append([]byte(nil), x...), which
+					// turns an empty non-nil x into nil)
+					isClone := false
+					if cl, ok := v.(*ssa.Call); ok && CalleeName(cl.Common()) == "bytes.Clone" && len(cl.Common().Args) == 1 {
+						if at := T(cl.Common().Args[0]); IsField("db/diffdb.cacheValue", "init").Match(at) {
+							isClone = true
+						}
+					}
+					c.Require(rule, FuncKey(fn)+": cacheValue.init producer", p.InstrPos(st), "init is nil, a make()-allocated (always non-nil) copy, or bytes.Clone of another init — never a value that is nil for empty input", isMake || isNil || isClone, "value: "+T(st.Val).String())
+					if isClone {
+						continue
+					}
 					// if the function reads another cacheValue's init, the store must be guarded by that init != nil
 					readsInit := false
 					for _, bb := range blocksDeep(fn) {
